@@ -111,6 +111,9 @@ type Session struct {
 	errorHandler func(error)
 	timeLocation *time.Location
 	mu           sync.Mutex
+
+	// stopTimers retires the timers started for the logon currently in force.
+	stopTimers func()
 }
 
 // NewInitiatorSession returns a session for an Initiator object.
@@ -558,6 +561,18 @@ func (s *Session) start() error {
 		return err
 	}
 
+	// A Logon accepted after a Logout on the same connection negotiates the interval anew:
+	// the timers of the previous logon must not keep sending with the old one.
+	if s.stopTimers != nil {
+		s.stopTimers()
+	}
+	timersCtx, cancelTimers := context.WithCancel(s.ctx)
+	s.stopTimers = func() {
+		cancelTimers()
+		incomingMsgTimer.Close()
+		outgoingMsgTimer.Close()
+	}
+
 	s.Router.HandleIncoming(simplefixgo.AllMsgTypes, func(msg []byte) bool {
 		incomingMsgTimer.Refresh()
 		if s.currentState() == WaitingTestReqAnswer {
@@ -578,7 +593,7 @@ func (s *Session) start() error {
 		for {
 			incomingMsgTimer.TakeTimeout()
 			select {
-			case <-s.ctx.Done():
+			case <-timersCtx.Done():
 				return
 			default:
 			}
@@ -604,7 +619,7 @@ func (s *Session) start() error {
 		for {
 			outgoingMsgTimer.TakeTimeout()
 			select {
-			case <-s.ctx.Done():
+			case <-timersCtx.Done():
 				return
 			default:
 			}
